@@ -384,10 +384,12 @@ func (x *searcher) checkGC(s, n *State, o buildOpts, res *buildResult) {
 	if s.V.Other {
 		twins = append(twins, tOther)
 	}
+	tv := s.V
+	tv.Broken = false // build files that do not load are repaired before the builds that follow
 	for _, t := range twins {
 		bo := buildOpts{Target: t}
-		with := x.runBuildFiles(mergeFiles(s.V.render(), artOf(res.After)), s.V, bo)
-		without := x.runBuildFiles(mergeFiles(s.V.render(), artOf(before)), s.V, bo)
+		with := x.runBuildFiles(mergeFiles(tv.render(), artOf(res.After)), tv, bo)
+		without := x.runBuildFiles(mergeFiles(tv.render(), artOf(before)), tv, bo)
 		if with.LoadErr != nil || without.LoadErr != nil {
 			if (with.LoadErr == nil) != (without.LoadErr == nil) {
 				bad("changes-next-build", "Load after GC: "+es(with.LoadErr)+" vs without: "+es(without.LoadErr))
